@@ -76,6 +76,19 @@ namespace TrRouting
               tripUuid     = uuidGenerator(tripUuidStr);
               pathUuid     = uuidGenerator(pathUuidStr);
               Path &path = paths.at(pathUuid);
+
+              // A trip must have a time for at least two stops, no more times than its path has stops,
+              // and one departure time and one boarding/unboarding flag per arrival time
+              const unsigned long tripNodeTimesCount = capnpTrip.getNodeArrivalTimesSeconds().size();
+              if (tripNodeTimesCount < 2
+                  || tripNodeTimesCount > path.nodesRef.size()
+                  || capnpTrip.getNodeDepartureTimesSeconds().size() < tripNodeTimesCount
+                  || capnpTrip.getNodesCanBoard().size() < tripNodeTimesCount
+                  || capnpTrip.getNodesCanUnboard().size() < tripNodeTimesCount)
+              {
+                spdlog::error("Invalid trip {} in file {}: {} stop times for a path of {} stops, ignoring it", tripUuidStr, cacheFilePath, tripNodeTimesCount, path.nodesRef.size());
+                continue;
+              }
               
               trips.emplace(tripUuid, Trip(tripUuid,
                                            line.agency,
@@ -130,6 +143,11 @@ namespace TrRouting
       {
         // TODO Do something about faulty cache files?
         spdlog::error("-- Error reading line cache file -- {}: {}", cacheFilePath, e.getDescription().cStr());
+      }
+      catch (const std::exception& e)
+      {
+        // Unknown service or path, malformed uuid...: the file is inconsistent with the other caches
+        spdlog::error("-- Error reading line cache file -- {}: {}", cacheFilePath, e.what());
       }
 
       close(fd);
